@@ -30,7 +30,10 @@ LEVEL_TEXT = ('Coq theorems over the C08 registration model plus models of _onCa
               'an insecure link forces reconnect(port, verify) as the next driver action and is never stored; policies are stored only over '
               'verified TLS (every sequence); a stored policy is applied whenever it is unexpired, a missing disconnect record counting as '
               'unexpired (C09.F9 fixed); forced verification implies verification.  Tie: as C08, plus differential runs of _applyStsPolicy and starttls.')
-LEVEL_NOTE = c08.LEVEL_NOTE
+LEVEL_NOTE = (c08.LEVEL_NOTE + ' C09 (gap audit): the STS upgrade path through the real SocketDriver (reconnect(server=..., wait=True) -> servers.insert(0) -> '
+              'scheduled reconnect) was probed by hand (closes, resets, dials the policy port with verify=True) but is not a history event; a failed '
+              'secure connection falls through to the next configured entry (no policy is stored for an upgrade learnt over cleartext: by design of '
+              '_onCapSts); one network, one driver; SOCKS proxies and the TLS handshake itself are not modelled; the networks.conf reader is C16\'s.')
 TECHNIQUE = c08.TECHNIQUE
 
 
